@@ -1,7 +1,7 @@
 (* C13 - Splitting respects the size limit and never corrupts text. *)
 From Coq Require String.
 Import (notations) String.
-From Tabula Require Import base.Val base.Utf8 model.C13_Split proofs.C13_Trim proofs.C13_Split proofs.C13_Bound.
+From Tabula Require Import base.Val base.Utf8 model.C13_Split model.C13_Overlap proofs.C13_Trim proofs.C13_Split proofs.C13_Bound proofs.C13_Overlap.
 Open Scope N_scope.
 
 (* for EVERY size predicate (any unit: characters, tokens, words, sentences,
@@ -46,9 +46,47 @@ Theorem C13_trim_keeps_utf8 : forall s, valid_utf8 s -> valid_utf8 (trim_space s
 Proof. exact trim_space_valid. Qed.
 Print Assumptions C13_trim_keeps_utf8.
 
+(* ---- overlap (rag.OverlapGenerator.GenerateOverlap, rag.ApplyOverlapToChunks): for EVERY strategy, size,
+   MinOverlap / MaxOverlap, word preservation, chunk text and EVERY answer E of the sentence-end oracle.
+   content_of s c: c is s without its (Unicode) white space; ends_with_content text o: the content of o is
+   the end of the content of text *)
+
+(* the overlap is valid UTF-8 whenever the chunk is, and it is the end of the chunk's own content *)
+Theorem C13_overlap_is_the_end_of_the_chunk : forall E c text o,
+  valid_utf8 text -> generate E c text = Some o -> valid_utf8 o /\ ends_with_content text o.
+Proof. exact overlap_is_the_end_of_the_chunk. Qed.
+Print Assumptions C13_overlap_is_the_end_of_the_chunk.
+
+(* the content of a string is unique: the statement above says what it seems to say *)
+Theorem C13_content_is_a_function : forall s c1, content_of s c1 -> forall c2, content_of s c2 -> c1 = c2.
+Proof. exact content_unique. Qed.
+Print Assumptions C13_content_is_a_function.
+
+Theorem C13_every_valid_string_has_a_content : forall s, valid_utf8 s -> exists c, content_of s c.
+Proof. exact content_total. Qed.
+Print Assumptions C13_every_valid_string_has_a_content.
+
+(* never longer than MaxOverlap; never a non-empty overlap below MinOverlap *)
+Theorem C13_overlap_respects_its_bounds : forall E c text o,
+  generate E c text = Some o ->
+  ((0 <= o_max c)%Z -> (blen o <= o_max c)%Z) /\ (o = [] \/ (o_min c <= blen o)%Z).
+Proof. exact overlap_respects_its_bounds. Qed.
+Print Assumptions C13_overlap_respects_its_bounds.
+
+(* along a sequence of chunks every overlap prefix is taken from the previous chunk's own text, never from
+   a text that already carries a prefix; it is valid, within the bounds, and the new chunk text is the
+   prefix, a blank line, and the chunk's own text *)
+Theorem C13_overlap_along_a_chunk_sequence : forall E c texts prev out,
+  Forall valid_utf8 texts -> match prev with Some p => valid_utf8 p | None => True end ->
+  apply_chunks E c prev texts = Some out -> chain_ok c prev texts out.
+Proof. exact overlap_along_a_chunk_sequence. Qed.
+Print Assumptions C13_overlap_along_a_chunk_sequence.
+
 (* non-vacuity *)
 Example C13_ex : split_to_size (above_chars 5) 5 5 (bs "ab cd. efgh ij") = Ok [bs "ab"; bs "cd."; bs "efgh"; bs "ij"].
 Proof. vm_compute. reflexivity. Qed.
 Example C13_ex_cjk : split_to_size (above_chars 4) 4 4 [227; 129; 130; 227; 129; 130; 227; 129; 130]
   = Ok [[227; 129; 130]; [227; 129; 130]; [227; 129; 130]].
 Proof. vm_compute. reflexivity. Qed.
+Check demo_overlap.
+Check demo_content.
